@@ -52,13 +52,17 @@ def start_point(fn, lp):
     return None
 
 
-def inputs():
+def inputs(deep=False):
     """sorted segment lists (off, len) with their input order as identity"""
     out = []
+    lens_set = (1, 2, 3, 4, 6) if deep else (1, 2, 4)
+    top = 9 if deep else 7
     for n in (1, 2, 3, 4):
-        for offs in itertools.combinations_with_replacement(range(0, 7), n):
-            for lens in itertools.product((1, 2, 4), repeat=n):
-                if n == 4 and (offs[0] != 0 or lens[0] == 4 and lens[1] == 4):
+        for offs in itertools.combinations_with_replacement(range(0, top), n):
+            if n == 4 and deep and offs[0] != 0:
+                continue
+            for lens in itertools.product(lens_set if n < 4 else (1, 2, 4), repeat=n):
+                if n == 4 and not deep and (offs[0] != 0 or lens[0] == 4 and lens[1] == 4):
                     continue
                 out.append(list(zip(offs, lens)))
     return out
@@ -84,7 +88,7 @@ def check(ctx, fn, rule, layout):
         raise AnalysisBroken("%s: initialisation of the merge loop not found" % fn.name)
     cells = 0
     bad = None
-    for segs in inputs():
+    for segs in inputs(getattr(ctx, 'tier', 'quick') == 'thorough'):
         for mode in ("contig", "scattered"):
             if mode == "contig":
                 addrs, a = [], 100
